@@ -257,7 +257,7 @@ def main():
         ],
         "checks": checks,
         "not_applicable": [{"property_id": p, "reason": PENDING_REASON} for p in props if p not in CHECKS],
-        "notes": "All checks are generated-input search against explicit oracles; VERIF_SEED seeds every Hypothesis run; exit 2 = harness error (never reported as a violation). known_findings.json lists recorded/fixed defects.",
+        "notes": "Baseline on the repaired tree (26 fix: commits, guard-free): 160 passed, 7 failed - exactly BASELINE.json's stable_pass / always_fail sets (tests/test_export.py fails without any change). All checks are generated-input search against explicit oracles; VERIF_SEED seeds every Hypothesis run; exit 2 = harness error (never reported as a violation). known_findings.json lists recorded/fixed defects.",
     }
     (VERIF / "MANIFEST.json").write_text(json.dumps(manifest, indent=1) + "\n")
     print(f"MANIFEST.json: {len(checks)} checks, {len(manifest['not_applicable'])} not claimed")
